@@ -222,8 +222,11 @@ def child_fn(a, tier):
                         async with (Batch() if falsy else Context()) as parent:
                             out["parent"] = parent
 
+                            out["never_entered"] = Context(parent)
+
                             async def holder():
                                 async with Context(parent) as child:
+                                    out["child"] = child
                                     if mid_teardown:
                                         async def slow_teardown():
                                             entered.set()
@@ -270,6 +273,10 @@ def child_fn(a, tier):
             else:
                 await block()
             out["closed"] = out["parent"].closed
+            # `closed` is a statement about the context itself: a child that is still open, or was never entered, does not turn "closed" with its parent
+            if "child" in out and not mid_teardown and not leaked:
+                out["open_child_reports_closed"] = out["child"].closed
+            out["never_entered_reports_closed"] = out["never_entered"].closed
             release.set()
             tg.cancel_scope.cancel()
 
@@ -282,6 +289,8 @@ def child_fn(a, tier):
         return FAIL(f"open-child-not-reported:{'nested' if nested else 'root'}:{HOWS[how]}", f"the parent's exit produced {e!r}", summary)
     if not out["closed"]:
         return FAIL("parent-not-closed", "", summary)
+    if out.get("open_child_reports_closed") or out.get("never_entered_reports_closed"):
+        return FAIL("closed-is-true-for-a-context-whose-own-teardown-has-not-begun", f"open child: {out.get('open_child_reports_closed')}, never entered: {out.get('never_entered_reports_closed')}", summary)
     return OK(summary, True)
 
 
@@ -479,4 +488,33 @@ FAILED_ENTRY = Harness(
     stubs=STUBS_COMMON,
 )
 
-HARNESSES = [H, CHILD, PENDING, FAILED_ENTRY]
+
+# ------------------------------------------------------------------------------ L-inject (scenario shared with C19 J-cancel b)
+def linj_params(tier):
+    return [P("state", 0, 2), P("is_async", 0, 1), P("present", 0, 2)]
+
+
+@guard
+def linj_fn(a, tier):
+    from . import c19 as _c19
+
+    res = _c19._state_equiv(pick(a["state"], 3), pick(a["is_async"], 2), pick(a["present"], 3))
+    if res.ok:
+        return res
+    return FAIL("inject:" + res.sig, res.detail, res.summary)
+
+
+LINJECT = Harness(
+    prop="C13",
+    name="L-inject",
+    fn=linj_fn,
+    params=linj_params,
+    cube=lambda tier: 0,
+    title="lookups made on behalf of an @inject function obey the same lifecycle rule as explicit lookups",
+    bound_text=lambda tier: "as C19 J-cancel (b): sync / async injected function called while its current context is open / being torn down / already closed, resource static / absent / inherited",
+    oracle="the injected call has the outcome of the explicit get_resource / get_resource_nowait calls: allowed while open and during teardown, RuntimeError once the context is closed",
+    outside="-",
+    stubs=STUBS_COMMON,
+)
+
+HARNESSES = [H, CHILD, PENDING, FAILED_ENTRY, LINJECT]
